@@ -124,6 +124,36 @@ CHECKS["C20"] = dict(
     note="Welzl's recursion and the ring-termination bound are not proved (brute-force oracle per run). Known finding F5: zero-size configurations (single point, "
          "coincident points, zero-radius spheres).", design="5 C20")
 
+CHECKS["C05"] = dict(
+    technique="Coq proofs of the exact parts (predicate alternation and similarity invariance, model soundness) + degenerate-family differential run in debug and release with the decision trace hook",
+    text="Theorems: the exact predicate is alternating (cells deciding about the same five grid points agree), invariant under similarities of the grid, and the exact model "
+         "never cuts the nearest-generator region whatever the degeneracy. Tie: degenerate families only (on walls/edges/corners, n = 1..3, collinear/coplanar, exact and near "
+         "lattices, co-spherical sets, clusters, > 64 planes), debug and release under catch_unwind: no panic, finite values, debug == release, every cell = exact model cell "
+         "(C01 comparison), every recorded exact decision consistent with the grid map and the Coq predicate; runs that reached the exact path are counted (must be > 0).",
+    note="Absence of panics and finiteness of the floating-point pipeline are explored, not proved; the filter bound 1e-13(1+|n||p|) is not a proved error bound. The recorded "
+         "known findings K1, K2, K4, K5 are violations of this property on the current tree (witnesses in corpus/).", design="5 C05")
+CHECKS["C09"] = dict(
+    technique="Coq proof over a pipeline DSL (any split tree) + pipelines re-extracted from src/voronoi.rs into a Coq term every run + byte-level run over thread counts",
+    text="Theorem: for every pipeline of order-preserving stages (enumerate/zip before any length-changing stage), every binary split of the index range and every offset, "
+         "chunk-wise evaluation concatenated by position equals the sequential evaluation; insertion by position is order insensitive. Tie (a): every #[cfg(feature=rayon)] "
+         "statement of voronoi.rs is re-extracted, must equal its sequential twin up to the par_ spellings, is emitted as a DSL term (C09_gen.v) that must satisfy wf_pipeline; "
+         "shared-state constructs (Mutex, Atomic*, OnceLock, ...) in src/ are flagged. Tie (b): complete outputs byte-identical for RAYON_NUM_THREADS in {1,2,3,4,8,16,64}, "
+         "repeats, and the build without the rayon feature, incl. exact lattices (ties) and n up to 2000 (20000 thorough).",
+    note="Rayon's scheduler and indexed collect are trusted to implement the split/place-by-position semantics; the model cannot exhibit a real interleaving.", design="5 C09")
+CHECKS["C11"] = dict(
+    technique="Coq proof parametric in the big-integer structure (homomorphism argument) + byte-level comparison of four backend builds",
+    text="Theorem: for every integer implementation whose from/add/sub/mul denote the integer operations and each of the three sign glues used by the code, the predicate "
+         "equals the model's, so all backends agree on every input. Tie: the harness is built with ibig, dashu, malachite and num_bigint; predicate tuples (incl. full-precision "
+         "co-spherical sets) and degenerate tessellations that reach the exact path are compared byte for byte; ibig against the extracted model.",
+    note="The crates' arithmetic is assumed (hypotheses of the theorem). rug cannot be built here (GMP/m4).", design="5 C11")
+CHECKS["C19"] = dict(
+    technique="Coq proofs of the defining equations as polynomial identities (ring) and extend's minimality over R (lra/field) + residual checks on the public functions",
+    text="Theorems: three-plane intersection lies on all three planes; projection lands on the plane, along the normal, idempotent; projection onto the intersection line is on "
+         "both planes and perpendicular; signed volume/area antisymmetry and sign convention; two/three-point spheres pass through the points (centre in plane); extend yields "
+         "the smallest sphere containing both. Tie: the public functions on random/structured/scaled/offset arguments of bounded conditioning: residuals of the equations on "
+         "the outputs and comparison with exact rational formulas.",
+    note="Reals axioms (allow-listed) enter only C19_extend_minimal. The four-point sphere identity is proved in Cramer form (sphere_four_points_equidistant), the determinant form of the code is tested.", design="5 C19")
+
 NOT_YET = {}
 
 ALL = ["C%02d" % i for i in range(1, 21)]
